@@ -3,7 +3,9 @@ package main
 import (
 	"fmt"
 	"go/types"
+	"os"
 	"sort"
+	"strings"
 )
 
 func sortStrings(s []string) { sort.Strings(s) }
@@ -38,10 +40,16 @@ func (E *Engine) get(st *State, key string, s Sort) *Term {
 		panic(fmt.Sprintf("heap key %s used at sorts %s and %s", key, old, s))
 	}
 	E.heapSorts[key] = s
-	t := E.tb.Const(fmt.Sprintf("%s@%d", key, st.base), s)
+	base := st.base
+	if E.frozenKey[key] {
+		// construction-only field (E12): one version for the whole execution
+		base = 1
+		E.note("construction-only field keeps its value across unknown calls (E12): " + strings.TrimPrefix(key, "F$"))
+	}
+	t := E.tb.Const(fmt.Sprintf("%s@%d", key, base), s)
 	st.heap[key] = t
 	if key != allocKey {
-		if c := E.closed(t, E.tb.Const(fmt.Sprintf("%s@%d", allocKey, st.base), SInt)); c != nil {
+		if c := E.closed(t, E.tb.Const(fmt.Sprintf("%s@%d", allocKey, base), SInt)); c != nil {
 			E.tb.AddTermAxiom("closed:"+t.atom, c, t)
 		}
 	}
@@ -138,7 +146,15 @@ func (E *Engine) mergeStates(states []*State, guards []*Term) *State {
 // ---- heap keys ----
 
 func (E *Engine) fieldKey(si *structInfo, i int) (string, Sort) {
-	return "F$" + si.name + "." + si.st.Field(i).Name(), ArraySort(SRef, si.fields[i].sort)
+	k := "F$" + si.name + "." + si.st.Field(i).Name()
+	if _, seen := E.frozenKey[k]; !seen {
+		E.frozenKey[k] = E.P.constructionOnly(si.st.Field(i))
+		if os.Getenv("GOVC_DEBUG_FROZEN") != "" {
+			f := si.st.Field(i)
+			fmt.Fprintf(os.Stderr, "frozen? %s = %v (exported %v pkg %v source %v)\n", k, E.frozenKey[k], f.Exported(), f.Pkg(), E.P.sourcePkg[f.Pkg()])
+		}
+	}
+	return k, ArraySort(SRef, si.fields[i].sort)
 }
 
 func (E *Engine) cellKey(s Sort) (string, Sort) {
@@ -199,10 +215,28 @@ func (E *Engine) subRef(si *structInfo, i int, p *Term) *Term {
 	E.tb.DeclFunc(inv, []Sort{SRef}, SRef)
 	E.tb.DeclFunc("birth", []Sort{SRef}, SInt)
 	x := E.tb.BVar("x", SRef)
-	E.tb.AddAxiom("inj:"+n, E.tb.Forall([]*Term{x}, E.tb.And(
-		E.tb.Eq(E.tb.App(inv, SRef, E.tb.App(n, SRef, x)), x),
-		E.tb.Eq(E.tb.App("birth", SInt, E.tb.App(n, SRef, x)), E.tb.App("birth", SInt, x)),
-		E.tb.Not(E.tb.Eq(E.tb.App(n, SRef, x), E.null())))), n)
+	// sub-objects reached through different fields are different objects: each field has its own tag
+	E.tb.DeclFunc("subtag", []Sort{SRef}, SInt)
+	if E.subTag == nil {
+		E.subTag = map[string]int64{}
+	}
+	if _, ok := E.subTag[n]; !ok {
+		E.subTag[n] = int64(len(E.subTag) + 1)
+	}
+	if r.bound {
+		E.tb.AddAxiom("inj:"+n, E.tb.Forall([]*Term{x}, E.tb.And(
+			E.tb.Eq(E.tb.App("subtag", SInt, E.tb.App(n, SRef, x)), E.tb.Int(E.subTag[n])),
+			E.tb.Eq(E.tb.App(inv, SRef, E.tb.App(n, SRef, x)), x),
+			E.tb.Eq(E.tb.App("birth", SInt, E.tb.App(n, SRef, x)), E.tb.App("birth", SInt, x)),
+			E.tb.Not(E.tb.Eq(E.tb.App(n, SRef, x), E.null())))), n)
+	} else {
+		// ground instance for this particular sub-object
+		E.tb.AddTermAxiom(fmt.Sprintf("inj:%s#%d", n, r.id), E.tb.And(
+			E.tb.Eq(E.tb.App("subtag", SInt, r), E.tb.Int(E.subTag[n])),
+			E.tb.Eq(E.tb.App(inv, SRef, r), p),
+			E.tb.Eq(E.tb.App("birth", SInt, r), E.tb.App("birth", SInt, p)),
+			E.tb.Not(E.tb.Eq(r, E.null()))), r)
+	}
 	return r
 }
 
@@ -367,6 +401,9 @@ func (E *Engine) newRef(st *State, hint string, spec bool) *Term {
 	if !spec {
 		E.addFact(st, E.tb.Eq(E.birth(r), nc))
 	}
+	// an allocation is not a sub-object of another object
+	E.tb.DeclFunc("subtag", []Sort{SRef}, SInt)
+	E.tb.AddTermAxiom("subtag:"+r.atom, E.tb.Eq(E.tb.App("subtag", SInt, r), E.tb.Int(0)), r)
 	E.set(st, allocKey, nc)
 	return r
 }
